@@ -133,6 +133,8 @@ def run(chk):
             if "body" not in f:
                 continue
             is_control = f["name"].startswith("phq_verif_control")
+            if not is_control and not f["loc"].startswith(frontend.INC):
+                continue   # standard-library bodies dumped for other checks are not library code
             qn = f.get("qname", f["name"])
             loc = short(f.get("def_loc", f["loc"]))
             calls = calls_with_context(f)
